@@ -185,7 +185,9 @@ impl Property for C01 {
                 Case::Wire(gen_case(&mut Choices::new(&e), Some(f)))
             })
         });
-        Box::new(flips.chain(fields))
+        // valid records whose signature bytes have a rare shape (ground once, committed)
+        let shapes = crate::sigshapes::corpus().iter().map(|r| Case::Wire(WireCase { bytes: r.bytes.clone(), label: format!("sigshape/{}", r.shape), has_custom: false }));
+        Box::new(shapes.chain(flips).chain(fields))
     }
     fn fuzz_plans(&self) -> Vec<(&'static str, u64)> {
         vec![("wire_raw", 30000), ("wire_struct", 15000)]
